@@ -129,7 +129,12 @@ extern "C" int harness_main()
 	vp_scenario(kind);
 	int const version = (kind == 4 || kind == 5) ? 4 : 5;
 	static std::string long_name(200, 'n');
-	if (kind == 7) g_extra_reply = 4000;
+	if (kind == 7)
+	{
+		// the client's downlink is slow: the proxy reads from the target faster than it can write to the client
+		g_extra_reply = 4000;
+		cfg.in[CA].append(std::make_shared<queue>(s.get_io_context(), 20000, duration(0), 0, "slow"));
+	}
 	socks_server* proxy = new socks_server(pios, 1080, version);
 	std::string neg;
 	if (kind == 0) neg = v5_connect_ip(TA.to_v4(), 9000);
